@@ -1017,4 +1017,24 @@ impl Deserializable for PrivateKey {""", """        enforce_outbuf_len::<Self>(b
     }
 }
 impl Deserializable for PrivateKey {""")]),
+    # ------------------------------------------------------------------ C17 cfg / feature universe
+    dict(name='c17-release-only-shortcut', expect=[('C17', 'R17.6')],
+         note='the exact-length guard of AeadTag::from_bytes only exists in debug builds: release builds panic on wrong lengths',
+         edits=[(AEAD, """        enforce_equal_len(Self::size(), encoded.len())?;
+
+        // Copy to a fixed-size array""", """        #[cfg(debug_assertions)]
+        enforce_equal_len(Self::size(), encoded.len())?;
+        #[cfg(not(debug_assertions))]
+        if encoded.len() < Self::size() { return Err(HpkeError::IncorrectInputLength(Self::size(), encoded.len())); }
+
+        // Copy to a fixed-size array""")]),
+    dict(name='c17-target-width-dependent', expect=[('C17', 'R17.6')],
+         note='32-bit targets use a different concat buffer size',
+         edits=[("src/dhkex.rs", "pub(crate) const MAX_PUBKEY_SIZE: usize = 133;", """#[cfg(target_pointer_width = "64")]
+pub(crate) const MAX_PUBKEY_SIZE: usize = 133;
+#[cfg(not(target_pointer_width = "64"))]
+pub(crate) const MAX_PUBKEY_SIZE: usize = 97;""")]),
+    dict(name='c17-std-implies-p256', expect=[('C17', 'R17.5')],
+         note='feature std silently enables the P-256 KEM: subsets are no longer independent',
+         edits=[("Cargo.toml", "std = []", 'std = ["p256"]')]),
 ]
